@@ -511,16 +511,22 @@ class Solver(object, metaclass=SolverMetaclass):
         parallel = self._rec_mgr._check_parallel() if system.comm.size > 1 else False
         local = parallel and not self._rec_mgr._check_gather()
 
-        if self.recording_options['record_outputs']:
-            data['output'] = system._retrieve_data_of_kind(filt, 'output', vec_name, local)
+        # Solvers run with the model in a scaled state; cases hold values in physical units.  The
+        # retrieved values are views into the vectors, so record before scaling them back.
+        outputs = system._vectors['output'][vec_name]
+        residuals = system._vectors['residual'][vec_name]
+        with system._unscaled_context(outputs=[outputs], residuals=[residuals]):
+            if self.recording_options['record_outputs']:
+                data['output'] = system._retrieve_data_of_kind(filt, 'output', vec_name, local)
 
-        if self.recording_options['record_inputs']:
-            data['input'] = system._retrieve_data_of_kind(filt, 'input', vec_name, local)
+            if self.recording_options['record_inputs']:
+                data['input'] = system._retrieve_data_of_kind(filt, 'input', vec_name, local)
 
-        if self.recording_options['record_solver_residuals']:
-            data['residual'] = system._retrieve_data_of_kind(filt, 'residual', vec_name, local)
+            if self.recording_options['record_solver_residuals']:
+                data['residual'] = system._retrieve_data_of_kind(filt, 'residual', vec_name,
+                                                                 local)
 
-        self._rec_mgr.record_iteration(self, data, metadata)
+            self._rec_mgr.record_iteration(self, data, metadata)
 
     def cleanup(self):
         """
